@@ -345,15 +345,21 @@ def perform(ctx, p, cfg):
             n = pick_node(ctx, p, "n")
             keys = [CUS, T, TID, LID, POS, "unregistered"]
             key = keys[ctx.choose(len(keys), "key")]
-            val = z3.Int("new_val")
+            val, val2 = z3.Int("new_val"), z3.Int("new_val2")
+            # optionally a second attribute in the same call (dict order matters for half-applied updates)
+            k2 = ctx.choose(len(keys) + 1, "key2")
+            key2 = None if k2 == len(keys) or keys[k2] == key else keys[k2]
+            attrs = {key: SInt(val)}
+            if key2 is not None:
+                attrs[key2] = SInt(val2)
             named["nodes"] = [n]
-            args = dict(n=n, key=key, val=val)
+            args = dict(n=n, key=key, val=val, key2=key2, val2=val2)
             ctx.input("args", args)
             ctx.env.update(n=n, key=key)
             if kind == "UserUpdateNodeAttrs":
-                act = UserUpdateNodeAttrs(tr, n, {key: SInt(val)})
+                act = UserUpdateNodeAttrs(tr, n, attrs)
             else:
-                act = UpdateNodeAttrs(tr, n, {key: SInt(val)})
+                act = UpdateNodeAttrs(tr, n, attrs)
         elif kind == "UpdateTrackIDs":
             n = pick_node(ctx, p, "n", dead_ok=False)
             s = n - 1
